@@ -153,7 +153,6 @@ func init() {
 		"strconv.Atoi":             strconv.Atoi,
 		"strconv.FormatInt":        strconv.FormatInt,
 		"strconv.FormatUint":       strconv.FormatUint,
-		"strconv.ParseInt":         strconv.ParseInt,
 		"strconv.ParseUint":        strconv.ParseUint,
 		"strconv.ParseBool":        strconv.ParseBool,
 		"strconv.ParseFloat":       strconv.ParseFloat,
